@@ -31,32 +31,7 @@ TRANSLATORS = ["T-purefuns"]
 # known_findings.json; the coordinator decides between a fix: commit and that file).  A failing
 # input whose `sig` matches an entry is printed as KNOWN-FINDING and does not fail the run; any
 # other violation of the property still does.
-KNOWN = [
-    {
-        "id": "F1",
-        "property": "C06",
-        "what": "OP_NOT uses state.top().bitwise_not(): on a Bool-typed stack top (ISZERO;NOT, LT;NOT) HalmosBool.bitwise_not is logical negation, the result is 0/1 instead of 2^256-1 / 2^256-2",
-        "match": {"op": "NOT", "class": "wrong-value", "top": "bool"},
-    },
-    {
-        "id": "F2",
-        "property": "C06",
-        "what": "concrete EXP computes lhs**rhs unreduced: time and memory grow with the exponent (2**(2**64) never returns / MemoryError) - not prompt",
-        "match": {"op": "EXP", "class": "not-prompt", "operands": "concrete"},
-    },
-    {
-        "id": "F15",
-        "property": "C06",
-        "what": "ADDMOD / MULMOD with three concrete operands and modulus 0 evaluate (a+b) % 0 / (a*b) % 0 in Python: uncaught ZeroDivisionError escapes SEVM.run (EVM result is 0)",
-        "match": {"op_in": ["ADDMOD", "MULMOD", "addmod", "mulmod"],"class": "exception:ZeroDivisionError", "operands": "concrete", "modulus": "zero"},
-    },
-    {
-        "id": "F16",
-        "property": "C06",
-        "what": "HalmosBool(<BoolRef that simplifies to true/false>) returns the TRUE/FALSE singleton from __new__ and then __init__ overwrites its fields (con_val=None, sym_val=BoolVal): TRUE.is_concrete becomes False and bool(TRUE)/int(TRUE) raise NotConcreteError until the next HalmosBool(<python bool>) call",
-        "match": {"op": "HalmosBool.__init__", "class": "singleton-mutated"},
-    },
-]
+KNOWN = common.known_for("C06")  # entries live in /verif/known_findings.json
 
 ASSUMPTIONS = [
     "z3's simplify() and constant folding preserve the SMT-LIB denotation of a term (exercised by the tie on every case, not modelled)",
